@@ -188,9 +188,11 @@ func (p *ProofD) MergeProofP(proofP *ProofP, _ *gabikeys.PublicKey) {
 }
 
 func (p *ProofD) reconstructRangeProofStructures(pk *gabikeys.PublicKey) error {
-	p.cachedRangeStructures = make(map[int][]*rangeproof.ProofStructure)
+	// Only cache the structures once all of them have been extracted: a partially filled cache
+	// would make a later verification of this same proof skip the range proofs that failed here.
+	structures := make(map[int][]*rangeproof.ProofStructure)
 	for index, proofs := range p.RangeProofs {
-		p.cachedRangeStructures[index] = []*rangeproof.ProofStructure{}
+		structures[index] = []*rangeproof.ProofStructure{}
 		for _, proof := range proofs {
 			if proof == nil {
 				return errors.New("missing range proof")
@@ -199,9 +201,10 @@ func (p *ProofD) reconstructRangeProofStructures(pk *gabikeys.PublicKey) error {
 			if err != nil {
 				return err
 			}
-			p.cachedRangeStructures[index] = append(p.cachedRangeStructures[index], s)
+			structures[index] = append(structures[index], s)
 		}
 	}
+	p.cachedRangeStructures = structures
 	return nil
 }
 
